@@ -128,6 +128,7 @@ def run_engines(case):
             engines.append(b.build())
         top = FormulaEngine3Phase("f3", Quantity, tuple(engines)) if three else engines[0]
         out_rx = None
+        got = []
         sent = [0] * len(chans)
         max_backlog = 0
         nones = case.get("nones") or []       # [[stream, k], ...]: samples whose value is None
@@ -146,12 +147,24 @@ def run_engines(case):
                     await asyncio.sleep(0)
             elif act[0] == "p":
                 await asyncio.sleep(1.0)      # virtual time: returns once every task is blocked
+            elif act[0] == "w":
+                await asyncio.sleep(float(act[1]))   # let (virtual) time pass: an input stalls
             elif act[0] == "c":
                 if out_rx is None:
-                    out_rx = top.new_receiver(max_size=100000)
+                    if case.get("out_size"):
+                        # a consumer with a small buffer that reads continuously
+                        out_rx = top.new_receiver(max_size=case["out_size"])
+
+                        async def reader(rx=out_rx):
+                            async for msg in rx:
+                                got.append(msg)
+                        asyncio.create_task(reader())
+                    else:
+                        out_rx = top.new_receiver(max_size=100000)
         out = []
-        while len(out_rx._q):  # pylint: disable=protected-access
-            m = out_rx.consume() if await out_rx.ready() else None
+        while not case.get("out_size") and len(out_rx._q):  # pylint: disable=protected-access
+            got.append(out_rx.consume() if await out_rx.ready() else None)
+        for m in got:
             us = (m.timestamp - E) // timedelta(microseconds=1)
             tick = us // TICK_US if us % TICK_US == 0 else us / TICK_US   # off the tick grid: kept as a float
             if three:
@@ -348,6 +361,8 @@ def gen_engine_case(rng, kind):
                 "sched": gen_sched(rng, streams, long_mode=True), "orders": None}
     if kind == "startup_gap":
         return gen_startup_gap_case(rng)
+    if kind == "stall":
+        return gen_stall_case(rng)
     streams = gen_grid_streams(rng, n, d, 40 if rng.random() < 0.15 else 14)
     case = {"kind": kind, "d": d, "streams": streams, "eng": [list(range(n))]}
     if kind == "offgrid":
@@ -376,6 +391,43 @@ def gen_engine_case(rng, kind):
         case["nones"] = nones
     case["sched"] = gen_sched(rng, case["streams"])
     return case
+
+
+def gen_stall_case(rng):
+    """Grid inputs fed in lock-step; after a few ticks ONE input stalls for more than a minute of
+    (virtual) time while the others keep ticking (their backlog stays <= 40), then it delivers
+    everything it owes with the original timestamps."""
+    n = rng.choice([2, 2, 3, 4])
+    d = rng.choice([1, 2, 4])
+    base = rng.randrange(-40, 40)
+    pre = rng.randint(1, 4)
+    m = rng.randint(3, 30)                      # ticks the others advance during the stall
+    post = rng.randint(2, 6)
+    total = pre + m + post
+    streams = [[base + d * j for j in range(total)] for _ in range(n)]
+    g = rng.randrange(n)
+    others = [i for i in range(n) if i != g]
+    sched = [["c"]] if rng.random() < 0.7 else []
+    for _ in range(pre):
+        sched += [["s", i] for i in range(n)] + [["p"]]
+    if not sched or sched[0] != ["c"]:
+        sched.append(["c"])
+    period = rng.choice([3, 5, 10, 30]) if rng.random() < 0.8 else 1
+    waited = 0
+    for _ in range(m):
+        sched += [["s", i] for i in others] + [["w", period]]
+        waited += period
+    if rng.random() < 0.8 and waited <= 61:
+        sched.append(["w", 62 - waited + rng.randint(0, 30)])
+    burst = rng.random() < 0.5
+    for _ in range(m):
+        sched.append(["s", g])
+        if not burst:
+            sched.append(["y", rng.randint(1, 6)])
+    sched.append(["p"])
+    for _ in range(post):
+        sched += [["s", i] for i in range(n)] + [["p"]]
+    return {"kind": "stall", "d": d, "streams": streams, "eng": [list(range(n))], "orders": None, "sched": sched}
 
 
 def gen_startup_gap_case(rng):
@@ -450,6 +502,28 @@ def gen_three_case(rng, kind):
             streams[g] = streams[g][:j] + [t + d * rng.randint(1, 2) for t in streams[g][j:]]
         case["orders"] = {str(e): [list(range(len(eng[e])))] for e in range(3)}
     case["sched"] = gen_sched(rng, streams)
+    if kind == "three_small_consumer":
+        # the consumer subscribes with a small buffer and reads continuously; one phase lags by more
+        # than that buffer (but < 40) and then delivers one sample at a time
+        N = rng.choice([1, 2, 5, 10])
+        L = rng.randint(N + 1, min(38, N + 15))
+        total = L + rng.randint(2, 6)
+        base = rng.randrange(-20, 20)
+        streams = [[base + d * j for j in range(total)] for _ in range(3)]
+        lagp = rng.randrange(3)
+        sched = [["c"]]
+        for _ in range(L):
+            sched += [["s", p] for p in range(3) if p != lagp]
+            if rng.random() < 0.3:
+                sched.append(["p"])
+        sched.append(["p"])
+        for j in range(total):
+            sched.append(["s", lagp])
+            if j >= L:
+                sched += [["s", p] for p in range(3) if p != lagp]
+            sched.append(["p"])
+        case = {"kind": kind, "d": d, "streams": streams, "eng": [[0], [1], [2]], "orders": None,
+                "out_size": N, "sched": sched}
     return case
 
 
